@@ -146,6 +146,8 @@ impl Entry {
     /// It should be safe to call `C::finalize` on the entry after the `guard` is dropped, where `C`
     /// is the associated helper for the linked list.
     pub(crate) unsafe fn delete(&self, guard: &Guard) {
+        #[cfg(circ_verif)]
+        crate::verif::pre(crate::verif::site::L_DEL);
         self.next.fetch_or(1, Release, guard);
     }
 }
@@ -177,9 +179,13 @@ impl<T, C: IsElement<T>> List<T, C> {
         // Make a Shared ptr to that Entry.
         let entry_ptr = RawShared::from(entry as *const _);
         // Read the current successor of where we want to insert.
+        #[cfg(circ_verif)]
+        crate::verif::pre(crate::verif::site::L_INS_LOAD);
         let mut next = to.load(Relaxed, guard);
 
         loop {
+            #[cfg(circ_verif)]
+            crate::verif::pre(crate::verif::site::L_INS_CAS);
             // Set the Entry of the to-be-inserted element to point to the previous successor of
             // `to`.
             entry.next.store(next, Relaxed);
@@ -205,6 +211,8 @@ impl<T, C: IsElement<T>> List<T, C> {
     /// 3. The iteration may be aborted when it lost in a race condition. In this case, the winning
     ///    thread will continue to iterate over the same list.
     pub(crate) fn iter<'g>(&'g self, guard: &'g Guard) -> Iter<'g, T, C> {
+        #[cfg(circ_verif)]
+        crate::verif::pre(crate::verif::site::L_ITER_HEAD);
         Iter {
             guard,
             pred: &self.head,
@@ -212,6 +220,22 @@ impl<T, C: IsElement<T>> List<T, C> {
             head: &self.head,
             _marker: PhantomData,
         }
+    }
+}
+
+#[cfg(circ_verif)]
+impl<T, C: IsElement<T>> List<T, C> {
+    /// `[(entry address, marked)]` of the entries linked from the head (callers are quiescent).
+    pub(crate) unsafe fn verif_dump(&self) -> Vec<(usize, bool)> {
+        let guard = unprotected();
+        let mut out = Vec::new();
+        let mut curr = self.head.load(Acquire, &guard);
+        while let Some(c) = curr.as_ref() {
+            let succ = c.next.load(Acquire, &guard);
+            out.push((curr.as_raw() as usize, succ.tag() == 1));
+            curr = succ;
+        }
+        out
     }
 }
 
@@ -237,6 +261,8 @@ impl<'g, T: 'g, C: IsElement<T>> Iterator for Iter<'g, T, C> {
 
     fn next(&mut self) -> Option<Self::Item> {
         while let Some(c) = unsafe { self.curr.as_ref() } {
+            #[cfg(circ_verif)]
+            crate::verif::pre(crate::verif::site::L_IT_NEXT_LOAD);
             let succ = c.next.load(Acquire, self.guard);
 
             if succ.tag() == 1 {
@@ -248,6 +274,8 @@ impl<'g, T: 'g, C: IsElement<T>> Iterator for Iter<'g, T, C> {
                 debug_assert!(self.curr.tag() == 0);
 
                 // Try to unlink `curr` from the list, and get the new value of `self.pred`.
+                #[cfg(circ_verif)]
+                crate::verif::pre(crate::verif::site::L_IT_UNLINK_CAS);
                 let succ = match self
                     .pred
                     .compare_exchange(self.curr, succ, Acquire, Acquire, self.guard)
@@ -272,6 +300,8 @@ impl<'g, T: 'g, C: IsElement<T>> Iterator for Iter<'g, T, C> {
                 // If the predecessor node is already marked as deleted, we need to restart from
                 // `head`.
                 if succ.tag() != 0 {
+                    #[cfg(circ_verif)]
+                    crate::verif::pre(crate::verif::site::L_IT_RESTART_LOAD);
                     self.pred = self.head;
                     self.curr = self.head.load(Acquire, self.guard);
 
